@@ -2,7 +2,7 @@
 # quick regression over every property that has units: prints one summary line per property
 cd /verif && go build -o bin/govc ./cmd/govc || exit 2
 rc=0
-for p in ${@:-C02 C04 C06 C07 C08 C10 C11 C13 C14 C15 C16 C17 C18 C20}; do
+for p in ${@:-C02 C04 C05 C06 C07 C08 C10 C11 C13 C14 C15 C16 C17 C18 C19 C20}; do
   out=$(./bin/govc check -prop $p -noevidence 2>&1 | tail -1)
   echo "$out"
   case "$out" in *"failed=0 "*) ;; *) rc=1;; esac
